@@ -34,7 +34,8 @@ def element_pool(max_decos):
 
 
 def markup_abbreviations(tier):
-    """the exhaustive markup pool, deterministic order, no duplicates"""
+    """the exhaustive markup pool (deterministic order, no duplicates) and its description"""
+    quick = tier == 'quick'
     seen = set()
     out = []
 
@@ -43,18 +44,21 @@ def markup_abbreviations(tier):
             seen.add(a)
             out.append(a)
 
-    for e in element_pool(2):                                   # every single element
+    p1, p2 = element_pool(1), element_pool(2)
+    singles = p1 + (p2[::5] if quick else p2)
+    firsts = p1 if quick else p1 + p2[::3]
+    small = SMALL[:8] if quick else SMALL
+    for e in singles:                                           # single elements
         add(e)
-    firsts = element_pool(1 if tier == 'quick' else 2)
     for e in firsts:                                            # element OP tail
         for op in OPS:
             for t in TAILS:
                 add(e + op + t)
-    for a, b, c in itertools.product(SMALL, repeat=3):          # three elements, every operator pair
+    for a, b, c in itertools.product(small, repeat=3):          # three elements, every operator pair
         for o1 in OPS:
             for o2 in OPS:
                 add(a + o1 + b + o2 + c)      # (`a^b` at the top level is valid too: climbing stops at the root)
-    for a, b in itertools.product(SMALL, repeat=2):             # groups
+    for a, b in itertools.product(small, repeat=2):             # groups
         for o1 in OPS[:2]:
             add('(' + a + o1 + b + ')')
             add('(' + a + o1 + b + ')*2')
@@ -62,7 +66,12 @@ def markup_abbreviations(tier):
                 add('(' + a + o1 + b + ')*2' + o2 + 'a')
                 add('a' + o2 + '(' + a + o1 + b + ')')
                 add('x>(' + a + o1 + b + ')' + o2 + '(' + b + ')')
-    return out
+    what = ('single elements: name x <=1 decoration x suffix (all) and x 2 decorations (%s); element OP tail for the first '
+            'elements %s, OP in > + ^, tail in %r; all 3-element combinations of %d representatives with every operator '
+            'pair; groups `(a OP b)`, `(..)*2`, `(..)*2 OP a`, `a OP (..)`, `x>(..) OP (b)` over the representatives'
+            % ('every 5th' if quick else 'all', 'with <=1 decoration' if quick else 'with <=1 decoration and every 3rd with 2',
+               TAILS, len(small)))
+    return out, what
 
 
 def random_markup(rng, max_elements):
@@ -120,6 +129,27 @@ LEFTS = ['', ' ', '\t', '<b>', '<img src="x">', '</p>', 'text ', '<br/>', '<foo-
 RIGHTS = ['', '"', "'", ']', ')', '}', ' text', '</p>']
 PREFIXES = ['', '<', '&&']
 
+
+def contexts(tier):
+    """(left, prefix, right) triples: the line is left + prefix + abbreviation + right"""
+    if tier != 'quick':
+        return [(l, p, r) for p in PREFIXES for l in LEFTS for r in RIGHTS]
+    out = []
+    for l in LEFTS:                     # every left context, caret at the end of the line / before more text
+        for r in ('', ' text'):
+            out.append((l, '', r))
+    for l in ('', '<b>'):               # every right context
+        for r in RIGHTS:
+            if (l, '', r) not in out:
+                out.append((l, '', r))
+    for l in ('', '<b>', 'text '):      # prefixes
+        for r in ('', ']'):
+            out.append((l, '<', r))
+    out.append(('', '&&', ''))
+    out.append(('x ', '&&', ' text'))
+    return out
+
+
 # ------------------------------------------------------------------ the tag-end look-alike family (candidate defect D20)
 
 _IDENT = r'A-Za-z0-9:\-'
@@ -155,7 +185,7 @@ def _selfcheck():
     from emmet.css_abbreviation import parse as cparse
     rng = random.Random(0)
     bad = 0
-    allm = markup_abbreviations('thorough') + [random_markup(rng, 6) for _ in range(20000)]
+    allm = markup_abbreviations('thorough')[0] + markup_abbreviations('quick')[0] + [random_markup(rng, 8) for _ in range(20000)]
     for a in allm:
         try:
             mparse(a)
